@@ -13,7 +13,7 @@ from common import hexs, rng
 import store as S
 
 FAMILY = "iter"
-HARNESS = {"source": "x_iter.c", "leak_clean": True}
+HARNESS = {"source": "x_iter.c", "leak_clean": True, "extra_sources": ["x_store_body.h", "cifio.h"]}
 RULE = ("exhaustive: every word over {next, update(own), update(foreign item), remove} of length <= 4 (quick) / <= 6 (thorough) "
         "followed by close or abort, for each loop shape (1-4 items x 0-6 packets, scalar loop, packets with unset items, "
         "destroyed loop); non-trivial = the iterator was opened; oracle = C06 replayed on the packets shown by the dump")
@@ -29,6 +29,11 @@ def nm(s):
 def val(i, j, gen=0):
     kinds = ["C1:" + hexs("v%d.%d.%d" % (i, j, gen)), "M0:" + hexs("%d.%d" % (i + 1, j)), "N", "C0:" + hexs("w%d%d%d" % (i, j, gen)), "U"]
     return kinds[(i * 3 + j + gen) % len(kinds)]
+
+
+def alt(n):
+    """another spelling of the same item name"""
+    return {"_a": "_A", "_B": "_b", "_é": "_É", "_d.x": "_D.X"}.get(n, n)
 
 
 def shapes(tier):
@@ -76,7 +81,25 @@ def calls(word, names, end):
     t = []
     for k, ch in enumerate(word):
         if ch == "n":
-            t += ["itnext", "0"]
+            # every second `next` hands over a packet of the caller's: empty / a subset of the loop's names / foreign names too /
+            # all names in another spelling; the delivered packet is then asked for every name of the loop and a foreign one
+            flavour = (k + len(word)) % 6
+            probes = [alt(n) for n in names] + ["_zz"]
+            if flavour in (0, 3):
+                t += ["itnext", "0"]
+                continue
+            if flavour == 1:
+                mine = []
+            elif flavour == 2:
+                mine = [alt(n) for n in names[: 1 + (k % len(names))]]
+            elif flavour == 4:
+                mine = ["_zz"] + [n for n in names[k % len(names):]] + ["_yy"]
+            else:
+                mine = [alt(n) for n in reversed(names)]
+            t += ["itnextp", "0", str(len(mine))]
+            for j, n in enumerate(mine):
+                t += [nm(n), val(k, j, 5)]
+            t += [str(len(probes))] + [nm(n) for n in probes]
         elif ch == "u":
             use = names[: 1 + (k % len(names))]
             t += ["itupd", "0", str(len(use))]
@@ -156,7 +179,21 @@ def violations(req, impl):
     for k in range(io + 1, len(ops)):
         o, st = ops[k], steps[k]
         where = "call %d (%s) rc=%s" % (k - io, o["op"], st["rc"])
-        if o["op"] == "itnext":
+        if o["op"] in ("itnext", "itnextp"):
+            if o["op"] == "itnextp" and st["rc"] == 0 and idx < len(orig):
+                # the caller's packet after delivery: exactly the loop's items, retrievable under any spelling, with the packet's
+                # values; nothing of what the caller had put in survives
+                gotnames = sorted(S.norm(S.ustr(x[2:])) for x in st["out"] if x.startswith("N:"))
+                if gotnames != sorted(keys):
+                    out.append("%s: the caller's packet holds the names %r after delivery, the loop's items are %r" % (where, gotnames, sorted(keys)))
+                cells = dict(tuple(x.split("=", 1)) for x in join_values([x for x in st["out"] if not x.startswith("N:")]))
+                for pn in o["probes"]:
+                    have = cells.get(hexs(pn[0]))
+                    want = orig[idx][keys.index(pn[1])] if pn[1] in keys else "!43"
+                    if have != want:
+                        out.append("%s: cif_packet_get_item(%r) on the delivered packet gives %s, expected %s" % (where, pn[0], have, want))
+                        break
+                st = dict(st, out=["%s=%s" % (hexs(kk), vv) for kk, vv in zip(keys, orig[idx])])
             if idx < len(orig):
                 want = dict((hexs(a), b) for a, b in zip(keys, orig[idx]))
                 got = dict(tuple(x.split("=", 1)) for x in join_values(st["out"]))
